@@ -155,10 +155,10 @@ PROPS['C14'] = {
     'functions': ['tree.pathLengths',
                   ('(*tree.Tree).ToDistanceMatrix', {'match': [r'^callsite', r'^post', r'^inv', r'^bounds', r'^nil', r'^pre\.tree\.pathLengths\.0']}),
                   '(*tree.Tree).cutEdgesMaxLengthRecur', '(*tree.TipBag).AddTip',
-                  ('(*tree.Tree).CutEdgesMaxLength', {'match': [r'^callsite']})],
+                  ('(*tree.Tree).CutEdgesMaxLength', {'match': [r'^callsite']}), ('tree.AvgDistanceMatrix', {'match': [r'^callsite', r'^step']})],
     'trusted_base': TB_COMMON,
     'assumptions': A_COMMON,
-    'not_decided': ['sum over the path / symmetry / zero diagonal as whole-tree facts (A-GRAPH)', 'AvgDistanceMatrix entrywise mean', 'sorted order of rows (sort.Slice less function)', 'floating-point summation order (A-FP)'],
+    'not_decided': ['sum over the path / symmetry / zero diagonal as whole-tree facts (A-GRAPH)', 'AvgDistanceMatrix: per-entry accumulation and final division are proved; that tips2 of the last tree has the length of tips (loop bounds) is not', 'sorted order of rows (sort.Slice less function)', 'floating-point summation order (A-FP)'],
 }
 
 PROPS['C12'] = {
